@@ -178,8 +178,34 @@ def _prune(keep):
             continue
         n += 1
         # a build used within the last hour may belong to a check that is still running
-        if n >= 2 and now - os.path.getmtime(p) > 3600:
+        if n >= 2 and now - os.path.getmtime(p) > 3600 and not _in_use(p):
             shutil.rmtree(p, ignore_errors=True)
+
+
+_HELD = []
+
+
+def _hold(root):
+    """shared lock for the life of this process: a long run's build is not pruned under it"""
+    try:
+        f = open(os.path.join(root, ".inuse"), "a")
+        fcntl.flock(f, fcntl.LOCK_SH)
+        _HELD.append(f)
+    except OSError:
+        pass
+
+
+def _in_use(root):
+    try:
+        with open(os.path.join(root, ".inuse"), "a") as f:
+            try:
+                fcntl.flock(f, fcntl.LOCK_EX | fcntl.LOCK_NB)
+            except OSError:
+                return True
+            fcntl.flock(f, fcntl.LOCK_UN)
+    except OSError:
+        pass
+    return False
 
 
 def ensure(flavours=("san",), quiet=False):
@@ -188,6 +214,7 @@ def ensure(flavours=("san",), quiet=False):
     b = Build(h)
     os.makedirs(b.root, exist_ok=True)
     os.utime(b.root, None)
+    _hold(b.root)
     for fl in flavours:
         dest = b.dir(fl)
         if os.path.isdir(dest):
